@@ -379,10 +379,18 @@ pub fn make(comp: &str) -> Box<dyn Machine> {
     let map = HandleControl::MapLettersToUnicode;
     match comp {
         "frame" => Box::new(FrameM(Ps2Decoder::new())),
+        // the second public constructor of each stage (Default) must behave as new()
+        "frame_default" => Box::new(FrameM(Ps2Decoder::default())),
+        "set1_default" => Box::new(ScanM(ScancodeSet1::default())),
+        "set2_default" => Box::new(ScanM(ScancodeSet2::default())),
         "set1" => Box::new(ScanM(ScancodeSet1::new())),
         "set2" => Box::new(ScanM(ScancodeSet2::new())),
         "event" => Box::new(EventM::new(map)),
         "eventany" => Box::new(EventAnyM(EventDecoder::new(DbgAny(2, any_layout(2)), map))),
+        c if c.starts_with("eventany:") => {
+            let idx: u8 = c[9..].parse().expect("layout index");
+            Box::new(EventAnyM(EventDecoder::new(DbgAny(idx, any_layout(idx)), map)))
+        }
         "kb1" => Box::new(KbM::new(ScancodeSet1::new(), map)),
         "kb2" => Box::new(KbM::new(ScancodeSet2::new(), map)),
         c if c.starts_with("kbl2:") || c.starts_with("kbl1:") => {
